@@ -61,6 +61,15 @@ def tables(tier):
     return out
 
 
+def rows_by_value(r):
+    """decoded rows; DECIMAL cells without trailing zeros of the fraction (1.5 and 1.50 are the same value: the scale a
+    decimal is printed with depends on how it was produced, not on the column)"""
+    out = []
+    for row in U.decode(r):
+        out.append(tuple(v.rstrip("0").rstrip(".") if ty == "Decimal" and isinstance(v, str) and "." in v else v for ty, v in zip(r["cols"], row)))
+    return out
+
+
 def probes(rows):
     """one `c0 = lit and c1 = lit ...` predicate per distinct row (IS NULL for NULL cells); small tables only"""
     if len(rows) > 40:
@@ -76,7 +85,7 @@ def probes(rows):
 def run(tier, seed):
     chk = core.Check("C20", tier, "exploration",
                      "column type lists of length 1-2 over 11 scalar types x boundary cell values (each value alone in a 1-row table and all together; NULL, '', delimiter/quote/newline/tab in strings, the text NULL, extreme numbers) "
-                     f"x {len(OPTIONS)} CSV option sets x {{memory, disk}}; COPY TO then COPY FROM into an identical table; a case = (types, rows, options, engine); non-trivial = table non-empty", seed)
+                     f"x {len(OPTIONS)} CSV option sets x {{memory, disk}}; COPY TO then COPY FROM into an identical table (compared as printed and by value); plus COPY (SELECT .. WHERE ..) TO of a two-row-set table x 6 filters (removing the first / the last row-set / everything) x 4 option sets; a case = (types, rows, options, engine); non-trivial = table non-empty", seed)
     ts = tables(tier)
     scripts, meta, files, nprobes = [], [], [], []
     n = 0
@@ -134,8 +143,8 @@ def run(tier, seed):
         if not (U.is_rows(a) and U.is_rows(b)):
             chk.fail(cid, f"select-fails@{tag}", case, {"t": a, "u": b})
             continue
-        if U.mset(U.decode(a)) != U.mset(U.decode(b)):
-            ma, mb = U.mset(U.decode(a)), U.mset(U.decode(b))
+        if U.mset(rows_by_value(a)) != U.mset(rows_by_value(b)):
+            ma, mb = U.mset(rows_by_value(a)), U.mset(rows_by_value(b))
             lost, extra = ma - mb, mb - ma
             # classify every exported row that did not come back: the signature names the kinds of damage, so that a new kind
             # of damage in a table that already has a known one is a different (unknown) signature
@@ -167,6 +176,55 @@ def run(tier, seed):
             chk.fail(cid, f"value-differs@{tag}{esc}", case, {"probe": bad[0], "exported_table": bad[1], "imported_table": bad[2]})
             continue
         chk.ok(cid, nontrivial=len(a["rows"]) > 0, outcome=f"rows={min(len(a['rows']), 9)},probes={min(compared, 3)}", sample={"case": case})
+    # ---- export of a query result (COPY (SELECT ..) TO ..): the source has two row-sets / chunks, and the filter may remove all
+    # rows of the first one, of the last one, or every row (operators may hand empty chunks to the writer)
+    qscripts, qmeta, qfiles = [], [], []
+    for engine in ("mem", "disk"):
+        for tys, rows1, rows2 in [(["int", "varchar"], [["1", "'a'"], ["2", "'b'"], ["3", "'c'"]], [["4", "'d'"], ["5", "'e'"], ["6", "'f'"]]),
+                                  (["varchar", "varchar"], [["'1'", "'a'"], ["'2'", "'b'"]], [["'4'", "'d'"], ["'5'", "'e'"]])]:
+            for filt in [None, "c0 > 3", "c0 < 4", "c0 > 100", "c0 = 5 or c0 = 1", "c1 = 'e'"]:
+                if filt and tys[0] == "varchar":
+                    filt = filt.replace("c0 > 3", "c0 > '3'").replace("c0 < 4", "c0 < '4'").replace("c0 > 100", "c0 > '9'").replace("c0 = 5 or c0 = 1", "c0 = '5' or c0 = '1'")
+                for oname in ("default", "header", "tab+header", "pipe"):
+                    n += 1
+                    f = os.path.join(SCRATCH, f"rlv-c20-{os.getpid()}-q{n}.csv")
+                    qfiles.append(f)
+                    cols = ", ".join(f"c{i} {t}" for i, t in enumerate(tys))
+                    query = "select * from t" + (f" where {filt}" if filt else "")
+                    steps = [{"sql": f"create table t({cols})"}, {"sql": f"create table u({cols})"},
+                             {"sql": "insert into t values " + ", ".join("(" + ", ".join(r) + ")" for r in rows1)},
+                             {"sql": "insert into t values " + ", ".join("(" + ", ".join(r) + ")" for r in rows2)},
+                             {"sql": f"copy ({query}) to '{f}'{OPTIONS[oname]}"}, {"sql": f"copy u from '{f}'{OPTIONS[oname]}"},
+                             {"sql": query}, {"sql": "select * from u"}]
+                    qscripts.append({"id": 0, "engine": engine, "opts": {"block": 16384, "rowset": 1 << 20}, "steps": steps})
+                    qmeta.append({"engine": engine, "types": tys, "query": query, "options": oname})
+    try:
+        qres = runner.run_many("sql", qscripts, timeout=300)
+    finally:
+        for f in qfiles:
+            try:
+                os.remove(f)
+            except OSError:
+                pass
+    for case, r in zip(qmeta, qres):
+        cid = core.case_id(case)
+        if r.get("abort"):
+            chk.fail(cid, "abort@query-export", case, r)
+            continue
+        rs = r["results"]
+        if any(U.status(x) != "rows" for x in rs[:4]):
+            chk.machinery(f"query export setup failed: {json.dumps(rs[:4])[:300]}")
+            continue
+        if U.status(rs[4]) != "rows":
+            chk.fail(cid, "export-fails@query-export", case, rs[4])
+        elif U.status(rs[5]) != "rows":
+            chk.fail(cid, "import-fails@query-export", case, rs[5])
+        elif not (U.is_rows(rs[6]) and U.is_rows(rs[7])):
+            chk.fail(cid, "select-fails@query-export", case, {"query": rs[6], "u": rs[7]})
+        elif U.mset(rows_by_value(rs[6])) != U.mset(rows_by_value(rs[7])):
+            chk.fail(cid, "rows-differ@query-export", case, {"exported": rs[6]["rows"][:8], "imported": rs[7]["rows"][:8]})
+        else:
+            chk.ok(cid, nontrivial=True, outcome=f"query-export:rows={min(len(rs[6]['rows']), 9)}", sample={"case": case})
     chk.assumptions += ["the CSV file is written and read with the same option list"]
     return chk
 
